@@ -22,7 +22,7 @@ type state struct {
 type Tracker struct {
 	mu         sync.Mutex
 	healing    bool
-	poisoned   []interface{} // objects that sit in their pool twice
+	poisoned   []interface{}          // objects that sit in their pool twice
 	objs       map[interface{}]*state // strong references: the GC cannot recycle an address
 	Violations []string
 	Gets, Puts [8]int64
